@@ -2,11 +2,12 @@
    Directives used: ExtrOcamlBasic only (bool, option, unit, list, prod, sumbool, sumor inductives;
    andb/orb inlined).  N, Z, positive, nat, Byte.byte stay Coq datatypes. *)
 From Coq Require Import ExtrOcamlBasic.
-From SE Require Import Spec.EscapeSpec Model.Line Model.Mapper Model.Cache Spec.MatchSpec Model.System Model.EventQueue.
+From SE Require Import Spec.EscapeSpec Model.Line Model.Mapper Model.Cache Spec.MatchSpec Model.System Model.EventQueue Model.Relay.
 Extraction Language OCaml.
 Extraction "model.ml" escape_metric_name escape_spec legal_name Byte.to_N Byte.of_N N.of_nat N.to_nat
   line_to_events f_of_bits f_to_bits f_add f_mul f_div f_ltb f_eqb f_of_Z f_to_int
   init_from_yaml get_mapping new_mapper lookup_uncached lru_get lru_add lru_reset rr_get rr_add rr_reset expand format fsm_get_mapping
   first_match most_specific has_ambiguous_wildcard spec_lookup
   init_sys step counter_value gather_ok
-  qinit do_queue do_tick.
+  qinit do_queue do_tick
+  new_relay rstep.
